@@ -141,6 +141,7 @@ func (sc *c12Scenario) Setup(w *simWorld) {
 	for _, r := range c12Routes {
 		sc.announce(w, r)
 	}
+	sc.announceRefused(w)
 	// initial End-of-RIB from every bot so that nobody is "still synchronising"
 	for _, b := range w.bots {
 		sc.sendEOR(b, bgp.RF_IPv4_UC)
@@ -174,6 +175,15 @@ func (sc *c12Scenario) sendEOR(b *simBot, f bgp.Family) {
 	}
 	un, _ := bgp.NewPathAttributeMpUnreachNLRI(f, nil)
 	b.sendMsg(bgp.NewBGPUpdateMessage(nil, []bgp.PathAttributeInterface{un}, nil))
+}
+
+// c12Refused is announced by g with the daemon's own AS in its AS_PATH: the input loop check refuses it, it is kept
+// in the Adj-RIB-In marked as rejected and must never be used - not after it was marked stale by a restart, not when
+// the stale routes are swept, not after a soft reset (and the accepted counter must keep counting usable routes only).
+var c12Refused = c12Route{"PX", "10.20.9.0/24", bgp.RF_IPv4_UC, false}
+
+func (sc *c12Scenario) announceRefused(w *simWorld) {
+	w.bots[0].sendMsg(sc.update(w.bots[0], c12Refused, []uint32{65001, 65000}))
 }
 
 func (sc *c12Scenario) announce(w *simWorld, r c12Route) {
@@ -433,6 +443,7 @@ func (sc *c12Scenario) Apply(w *simWorld, e simEvent) {
 		g.disconnect()
 	case "reann4":
 		sc.announce(w, c12Routes[0])
+		sc.announceRefused(w)
 	case "reann6":
 		sc.announce(w, c12Routes[2])
 	case "eor4", "eor6":
@@ -521,6 +532,34 @@ func (sc *c12Scenario) Check(w *simWorld, last *simEvent) {
 		}
 	}
 	sort.Strings(st)
+	// 1b. the refused route and the Adj-RIB-In accounting
+	if _, ok := have[c12Refused.prefix]; ok {
+		w.violate(fmt.Sprintf("C12:%srefused-route-in-loc-rib:%s:%s", sc.tag, sc.arg, ev), "after %s (%s): the route g announced with the local AS in its AS_PATH is in the Loc-RIB", ev, sc.arg)
+	}
+	if p := w.peer(g); p != nil {
+		fams := p.configuredRFlist()
+		usable := 0
+		for _, path := range p.adjRibIn.PathList(fams, false) {
+			if !path.IsRejected() {
+				usable++
+				if path.GetNlri().String() == c12Refused.prefix {
+					w.violate(fmt.Sprintf("C12:%srefused-route-usable-in-adj-rib-in:%s:%s", sc.tag, sc.arg, ev), "after %s (%s): the Adj-RIB-In copy of the route refused by the AS loop check is no longer marked rejected (stale=%v)", ev, sc.arg, path.IsStale())
+				}
+			}
+		}
+		if acc := p.adjRibIn.Accepted(fams); acc != usable {
+			w.violate(fmt.Sprintf("C12:%sadj-rib-in-accepted-count:%s:%s", sc.tag, sc.arg, ev), "after %s (%s): the Adj-RIB-In of g counts %d accepted routes, it holds %d that are not rejected", ev, sc.arg, acc, usable)
+		}
+		if usable > 0 || len(have) > 0 {
+			w.stat("refused-route-checked-with-routes-present")
+		}
+	}
+	for _, oi := range []int{1, 2} {
+		k := simRouteKey(c12Refused.fam, mustNLRI(c12Refused.prefix), 0)
+		if v, ok := w.bots[oi].view[k]; ok {
+			w.violate(fmt.Sprintf("C12:%srefused-route-advertised:%s:%s", sc.tag, sc.arg, ev), "after %s (%s): observer %s was sent the route refused by the AS loop check: %q", ev, sc.arg, w.bots[oi].spec.Name, v)
+		}
+	}
 	// 2. observers
 	for _, oi := range []int{1, 2} {
 		o := w.bots[oi]
